@@ -527,8 +527,9 @@ const (
 	opFlush
 	opEndSync
 	opEndWrite
-	opPartWrite // msgInfo{BlockPartMessage} through Write
-	opPartSync  // ... through WriteSync
+	opPartWrite   // msgInfo{BlockPartMessage} through Write
+	opPartSync    // ... through WriteSync
+	opEndZeroSync // WriteSync(EndHeightMessage{0}): the marker older versions wrote at the top of every head they found empty
 )
 
 type opSpec struct {
@@ -633,6 +634,9 @@ func (lv *live) do(op opSpec) error {
 		if msg, err = makePartMsg(r.H, r.R, []byte(r.Step)); err != nil {
 			return harnessErr{"building a BlockPartMessage WAL message: " + err.Error()}
 		}
+	case opEndZeroSync:
+		r = &rec{End: true, H: 0}
+		msg = consensus.EndHeightMessage{Height: 0}
 	case opEndSync, opEndWrite:
 		m.NextH += op.Gap
 		r = &rec{End: true, H: m.NextH}
@@ -651,7 +655,7 @@ func (lv *live) do(op opSpec) error {
 	case opWrite, opEndWrite, opPartWrite:
 		err = lv.wal.Write(msg)
 		verb = "Write"
-	case opWriteSync, opEndSync, opPartSync:
+	case opWriteSync, opEndSync, opPartSync, opEndZeroSync:
 		err = lv.wal.WriteSync(msg)
 		acked = err == nil
 		verb = "WriteSync"
